@@ -580,6 +580,15 @@ func (m *c45Mon) PostStop(ctx *actor.Context) error {
 	return m.inner.PostStop(ctx)
 }
 
+// TermErr passes the wrapped sink's terminal error on to the materializer's completion
+// wrapper (terminalErrorActor).
+func (m *c45Mon) TermErr() error {
+	if tea, ok := m.inner.(terminalErrorActor); ok {
+		return tea.TermErr()
+	}
+	return nil
+}
+
 func (m *c45Mon) note(what string) {
 	if !m.wired.Load() {
 		m.early.Add(1)
@@ -914,6 +923,17 @@ func (c *c45Case) run(sys actor.ActorSystem) c45Outcome {
 			got = append(got, x)
 			mu.Unlock()
 		})
+	}
+	{ // the sink actor is observed as well
+		m := &c45Mon{}
+		cp := *sink.desc
+		orig := sink.desc.actorFn
+		cp.actorFn = func(cfg StageConfig) actor.Actor {
+			m.inner = orig(cfg)
+			return m
+		}
+		sink = Sink[int]{desc: &cp}
+		c.mons = append(c.mons, m)
 	}
 	mode := []FusionMode{FuseStateless, FuseNone, FuseAggressive}[c.Fusion]
 	t0 := time.Now()
@@ -1280,7 +1300,8 @@ func TestVerif_C45(t *testing.T) {
 	rng := r.Rand(45)
 	n := r.N(320, 30000)
 	stuck := 0
-	for done := 0; done < n && stuck < 4; {
+	maxStuck := r.Pick(4, 12) // each stream that never completes costs about 30 s
+	for done := 0; done < n && stuck < maxStuck; {
 		g := 1 // one case per actor system: clean attribution of a stuck system
 		if g > n-done {
 			g = n - done
@@ -1363,7 +1384,7 @@ func TestVerif_C45(t *testing.T) {
 		}
 		done += g
 	}
-	if stuck >= 4 {
+	if stuck >= maxStuck {
 		r.Note("batch stopped early after %d streams that did not complete", stuck)
 	}
 }
